@@ -41,7 +41,7 @@ fn direct_solution(d: &Vec<Vec<f64>>, b: &[f64]) -> Option<Vec<f64>> {
     catch(|| m.solve_basic(&Vector::create(b.to_vec()))).ok().map(|v| v.vec).filter(|v| fl::all_finite(v))
 }
 
-fn frob(d: &Vec<Vec<f64>>) -> f64 { d.iter().flatten().map(|v| v * v).sum::<f64>().sqrt() }
+fn frob(d: &Vec<Vec<f64>>) -> f64 { norm2(&d.iter().flatten().copied().collect::<Vec<f64>>()) }
 
 fn convergence_case(st: &mut Stats, rng: &mut Rng) {
     let n = if rng.chance(0.2) { rng.usize(1, 4) } else { rng.usize(1, 60) };
@@ -54,7 +54,7 @@ fn convergence_case(st: &mut Stats, rng: &mut Rng) {
     let kf = frob(&d) * frob(&inv);
     let mk_rhs = |rng: &mut Rng| -> (Vec<f64>, Vec<f64>) {
         // right-hand sides of any scale: the planted solution (hence b) is scaled over 120 decades
-        let sc = *rng.pick(&[1.0, 1e8, 1e-8, 1e3, 1e-18, 1e-30, 1e-60, 1e30, 1e60, 1e-80, 1e80]);
+        let sc = *rng.pick(&[1.0, 1e8, 1e-8, 1e3, 1e-18, 1e-30, 1e-60, 1e30, 1e60, 1e-80, 1e80, 2f64.powi(-510), 2f64.powi(-530), 1e-140, 1e140, 1e-200, 1e200]);
         let xs: Vec<f64> = (0..n).map(|_| rng.sym() * sc).collect();
         let b: Vec<f64> = (0..n).map(|i| (0..n).map(|j| d[i][j] * xs[j]).sum()).collect();
         (xs, b)
